@@ -11,7 +11,7 @@ NEEDS_CLI = True
 RULE = ("op td.hash on accepted C08-style documents with exactly one violation injected at a random position (inside nested structs/arrays): "
         "every width 8..256 x the six boundary values (-2^(N-1)-1, -2^(N-1), 2^(N-1)-1, 2^(N-1), 2^N-1, 2^N) x every spelling (JSON int where it fits, "
         "float where exact, decimal string, hex string, +, negative string) for intN and uintN; bytesN lengths N-1, N, N+1; fixed array sizes +-1; "
-        "missing / extra member; undefined type; wrong JSON kind; a random sample of the cases is re-run through every sub-command that reaches the same code (vlib/routes.py); non-trivial = distinct document with an injected boundary value or violation; "
+        "missing / extra member; undefined type (also where no value reaches it: behind empty arrays, 7 malformed/undefined names x 9 shapes); wrong JSON kind; a random sample of the cases is re-run through every sub-command that reaches the same code (vlib/routes.py); non-trivial = distinct document with an injected boundary value or violation; "
         "judge = executable conformance relation of Spec.Eip712 (exact mathematical value of every literal)")
 EXHAUSTIVE_SWEEPS = {"quick": ["32 widths x 6 boundaries x {uint,int} x spellings", "bytes1..32 x {N-1,N,N+1}"],
                      "thorough": ["32 widths x 6 boundaries x {uint,int} x spellings", "bytes1..32 x {N-1,N,N+1}"]}
@@ -82,6 +82,37 @@ def gen(rng, tier):
                     else:
                         d = doc_for("%s[%d]" % (inner, N), [val] * L, nest)
                     cases.append(Case("td.hash " + hx(tdgen.dumps(d)), tags=("fixed-array", "N:%d" % N, "len:%+d" % (L - N))))
+    # an undefined struct type (or a malformed atomic name, which is read as one) that no value ever reaches: behind
+    # empty arrays, behind an empty array of a defined struct that refers to it, in the domain-less corner of a nested struct
+    J = tdgen.types_json
+    dm = [("name", "string")]
+    ghost_docs = []
+    for gt in ("Ghost", "uint9", "bytes33", "int", "uint0", "Bytes", "address payable"):
+        ghost_docs += [
+            ({"P": [("a", "string"), ("g", gt + "[]")]}, {"a": "x", "g": []}),
+            ({"P": [("g", gt + "[][]")]}, {"g": []}),
+            ({"P": [("g", gt + "[][2]")]}, {"g": [[], []]}),
+            ({"P": [("g", gt + "[0]")]}, {"g": []}),
+            ({"P": [("ps", "Q[]"), ("n", "uint8")], "Q": [("g", gt)]}, {"ps": [], "n": 1}),
+            ({"P": [("q", "Q")], "Q": [("s", "string"), ("g", gt + "[]")]}, {"q": {"s": "", "g": []}}),
+            ({"P": [("qs", "Q[][]")], "Q": [("r", "R[]")], "R": [("g", gt)]}, {"qs": [[{"r": []}]]}),
+            # controls: the same shapes with a value that does reach the type
+            ({"P": [("g", gt + "[]")]}, {"g": [{}]}),
+            ({"P": [("g", gt)]}, {"g": {}}),
+        ]
+    for types, msg in ghost_docs:
+        d = {"types": J(types, dm), "primaryType": "P", "domain": {"name": "d"}, "message": msg}
+        cases.append(Case("td.hash " + hx(tdgen.dumps(d)), tags=("undefined-unreached",)))
+    # the same with the type defined: accepted (so that the refusals above are for the missing definition only)
+    for types, msg in ghost_docs[:7]:
+        t2 = dict(types)
+        t2["Ghost"] = [("x", "uint8")]
+        d = {"types": J(t2, dm), "primaryType": "P", "domain": {"name": "d"}, "message": msg}
+        cases.append(Case("td.hash " + hx(tdgen.dumps(d)), tags=("defined-unreached",)))
+    # an undefined type in the *domain* position / as primary type
+    for types, pt, msg in [({"P": [("a", "string")]}, "Nope", {"a": "x"}), ({"P": [("a", "string")]}, "", {}), ({"P": [("a", "string")]}, "P[]", [])]:
+        d = {"types": J(types, dm), "primaryType": pt, "domain": {"name": "d"}, "message": msg}
+        cases.append(Case("td.hash " + hx(tdgen.dumps(d)), tags=("undefined-primary",)))
     # the known float-rounding class seen through typed data
     for tok in ["1.0000000000000001", "1e-400", "7.000000000000000000001", "9007199254740991.0"]:
         for t in ("uint64", "int64", "uint256"):
